@@ -160,7 +160,11 @@ def long_run_groups(rng, quick):
         rows = [[k, "p%d" % (k % 7)] for k in keys]
         t = {"name": "tl", "types": ["i64", "str"], "rows": rows, "batch_sizes": sizes}
         qs = []
-        for skip, fetch in [(0, None), (0, 5), (0, n - 1), (3, None), (n - 4, 10), (MERGE_BUFFER_ROWS - 2, 6)]:
+        # (the row-at-a-time merge needs several seconds per statement on runs of this length)
+        pairs = [(0, None), (0, 5), (0, n - 1), (3, None), (n - 4, 10), (MERGE_BUFFER_ROWS - 2, 6)]
+        if quick:
+            pairs = [(0, None), (MERGE_BUFFER_ROWS - 2, 6)] if not groups else [(3, None), (0, 5)]
+        for skip, fetch in pairs:
             q = ("sort", tbl(0, t), [(col(0), desc, None)])
             if skip or fetch is not None:
                 q = ("limit", q, skip, fetch)
@@ -205,10 +209,10 @@ def run_long(groups):
 def run(ctx):
     proved = ctx.prove()
     rng = ctx.rng
-    plan = [("memory", None, [gen_group(rng, "memory") for _ in range(ctx.n(5, 60))]),
-            ("parquet", None, [gen_group(rng, "parquet") for _ in range(ctx.n(4, 40))])]
+    plan = [("memory", None, [gen_group(rng, "memory") for _ in range(ctx.n(4, 60))]),
+            ("parquet", None, [gen_group(rng, "parquet") for _ in range(ctx.n(3, 40))])]
     for ml in (64, 128, 256, 1024, 4096):
-        k = ctx.n(2, 12) if ml <= 256 else ctx.n(1, 4)
+        k = ctx.n(2 if ml == 64 else 1, 12) if ml <= 256 else ctx.n(1, 4)
         plan.append((f"spill-{ml}", ml, [gen_group(rng, f"spill-{ml}", ml, pair_budget=(None if ml <= 256 else 12)) for _ in range(k)]))
     results = []
     relcheck.sort_info = _sort_info_c25
@@ -272,7 +276,7 @@ def run(ctx):
              "x 1-3 sort keys with random ASC/DESC and NULLS FIRST/LAST/default x every (OFFSET, LIMIT) from {none,0,1,n-1,n,n+1}^2 "
              "(a sample of 12 pairs for the two largest limits) + LIMIT/OFFSET without ORDER BY; ordered answers compared up to ties "
              "(key sequence = reference's, rows a sub-bag of the full sort); + long-run: 2 (thorough: 5) tables of 8.2k-25k rows "
-             "with unique integer keys whose sorted runs exceed the 8192-row merge buffer, 6 ORDER BY [LIMIT/OFFSET] statements each, "
+             "with unique integer keys whose sorted runs exceed the 8192-row merge buffer, 2 (thorough: 6) ORDER BY [LIMIT/OFFSET] statements each, "
              "compared exactly; non-trivial = table has >= 2 rows, distinct by "
              "(statement, configuration, table)",
         assumptions=["doubles are exact dyadic values (no NaN, no -0.0): NaN ordering is out of scope",
